@@ -280,6 +280,7 @@ type replayCase struct {
 	ModeName string   `json:"mode_name"`
 	ObsEvery bool     `json:"obs_every"`
 	ObsAddrs int      `json:"obs_addrs,omitempty"`
+	Iter     bool     `json:"iter,omitempty"`
 	Cold     bool     `json:"cold,omitempty"`
 	ColdTail int      `json:"cold_tail,omitempty"`
 	Ops      []string `json:"ops"`
@@ -368,7 +369,7 @@ func processFailures() {
 				"touched-empty and self-destructed accounts survive Finalise/Commit on the copy, dirty storage is not finalised, the refund counter is not cleared. e.g. %s; minimal history [%s]; consequences seen in this run: %s",
 				firstLine(f2.Detail), progString(o.prog), strings.Join(midList, ", "))
 		}
-		rc := replayCase{Mode: o.cfg.Mode, ModeName: modeName[o.cfg.Mode], ObsEvery: o.cfg.ObsEvery, ObsAddrs: o.cfg.ObsAddrs, Cold: o.cfg.Cold, ColdTail: o.cfg.ColdTail, Ops: progStrings(o.prog), FoundIn: progStrings(orig.prog), Detail: f2.Detail}
+		rc := replayCase{Mode: o.cfg.Mode, ModeName: modeName[o.cfg.Mode], ObsEvery: o.cfg.ObsEvery, ObsAddrs: o.cfg.ObsAddrs, Cold: o.cfg.Cold, ColdTail: o.cfg.ColdTail, Iter: o.cfg.Iter, Ops: progStrings(o.prog), FoundIn: progStrings(orig.prog), Detail: f2.Detail}
 		p, c := o.prog, o.cfg
 		r.ViolationConfirmed(sig, what, rc, func() string {
 			f3, ok := run(p, c, nil)
@@ -569,6 +570,8 @@ func usefulProgram(prog []Op) bool {
 		since   []int // tokens since each open snapshot
 		pending bool  // something finalised but not yet flushed by IntermediateRoot/Commit
 		changed bool  // anything done since the StateDB was (re)opened
+		nDiff   int   // diff layers on top of the snapshot disk layer (upper bound)
+		lastJ   bool  // previous token was a journal reload
 	)
 	for _, op := range prog {
 		if !m.feasible(op, len(msnaps)) {
@@ -577,7 +580,25 @@ func usefulProgram(prog []Op) bool {
 		for i := range since {
 			since[i]++
 		}
+		wasJ := lastJ
+		lastJ = false
 		switch op.K {
+		case kCap:
+			// only on a freshly (re)opened StateDB; a no-op when the diff stack is not deeper than V
+			if changed || nDiff <= int(op.V) {
+				return false
+			}
+			nDiff = int(op.V)
+			if op.V > 0 {
+				nDiff++ // the accumulator layer (may also have been flushed to disk)
+			}
+			continue
+		case kJournal:
+			if changed || wasJ || nDiff == 0 {
+				return false // reloading a tree without diff layers journals nothing
+			}
+			lastJ = true
+			continue
 		case kSnapshot:
 			msnaps = append(msnaps, m)
 			since = append(since, 0)
@@ -617,6 +638,7 @@ func usefulProgram(prog []Op) bool {
 			if op.K == kCommit {
 				m.reopen()
 				pending, changed = false, false
+				nDiff++
 				continue
 			}
 		case kCopyC:
@@ -698,6 +720,80 @@ func destructMarkerAlphabet() []Op {
 
 func stageMarkers(name string, L int, v seqVariants) {
 	stageSeq(name, destructMarkerAlphabet(), nil, Op{K: kCommit, V: 1}, L, v)
+}
+
+// enumeration E6 "snapshot layering": one account with two slots (plus a1, changed in every block),
+// blocks committed on a snapshot tree kept as diff layers, and the real Tree.Cap(root, k) / Journal +
+// reload applied between blocks, so that every layering is reached: diff-on-diff flatten into the
+// accumulator layer, accumulator flushed into the disk layer (diffToDisk), mixed, journal round trip.
+// (In production StateDB.Commit calls Tree.Cap(root, 128): the same code 129 blocks later.) Tokens are
+// macros: "Commit" = AddBalance(a1,1);Commit(false)+reopen. Oracles after EVERY Commit / Cap / reload:
+// model vs a fresh snapshot-backed StateDB vs a trie-only StateDB at the root, and the tree's account /
+// storage iterators vs the model.
+func layeringAlphabet() [][]Op {
+	return [][]Op{
+		{{K: kSetState, A: 0, S: 0, V: 0}},
+		{{K: kSetState, A: 0, S: 0, V: 1}},
+		{{K: kSetState, A: 0, S: 1, V: 1}},
+		{{K: kSuicide, A: 0}},
+		{{K: kCreateAccount, A: 0}},
+		{{K: kAddBalance, A: 1, V: 1}, {K: kCommit, V: 0}},
+		{{K: kCap, V: 0}},
+		{{K: kCap, V: 1}},
+		{{K: kCap, V: 2}},
+		{{K: kJournal}},
+	}
+}
+
+// bases of E6: empty tree; slot s0 of a0 non-zero and flushed into the snapshot DISK layer
+func layeringBases() (names []string, prefixes [][]Op) {
+	return []string{"empty base", "slot in the disk layer"},
+		[][]Op{nil, {{K: kSetState, A: 0, S: 0, V: 1}, {K: kAddBalance, A: 1, V: 1}, {K: kCommit, V: 0}, {K: kCap, V: 0}}}
+}
+
+func stageLayering(name string, L int, cold bool) {
+	names, prefixes := layeringBases()
+	al := layeringAlphabet()
+	for bi := range prefixes {
+		nm := fmt.Sprintf("%s, %s (snap-diff hot", name, names[bi])
+		if cold {
+			nm += "+cold"
+		}
+		nm += ")"
+		if skipStage(nm) {
+			continue
+		}
+		if stopped() {
+			stages = append(stages, stageInfo{Name: nm})
+			continue
+		}
+		prefix := prefixes[bi]
+		total := ipow(len(al), L)
+		before := atomic.LoadInt64(&cntPrograms)
+		closing := []Op{{K: kAddBalance, A: 1, V: 1}, {K: kCommit, V: 0}}
+		done := par.For(total, 256, stopped, func(idx int64) {
+			var buf [28]Op
+			prog := append(buf[:0], prefix...)
+			x := idx
+			for k := 0; k < L; k++ {
+				prog = append(prog, al[x%int64(len(al))]...)
+				x /= int64(len(al))
+			}
+			if !usefulProgram(prog) {
+				atomic.AddInt64(&cntIncPruned, 1)
+				return
+			}
+			prog = append(prog, closing...)
+			execute(prog, runCfg{Mode: modeSnapDiff, ObsEvery: true, ObsAddrs: 2, Iter: true})
+			if cold {
+				execute(prog, runCfg{Mode: modeSnapDiff, Cold: true, ColdTail: 2, ObsAddrs: 2, Iter: true})
+			}
+		})
+		stages = append(stages, stageInfo{Name: nm, Programs: total, Completed: done, Executed: atomic.LoadInt64(&cntPrograms) - before, Finished: done == total})
+		if done != total {
+			r.NotExhaustive(fmt.Sprintf("stage %s stopped after %d of %d sequences", nm, done, total))
+		}
+	}
 }
 
 // seqVariants: how each useful sequence of a deep, narrow stage is executed.
@@ -811,7 +907,7 @@ func replay() {
 		fmt.Println("MACHINERY-ERROR bad replay case:", err)
 		os.Exit(2)
 	}
-	c := runCfg{Mode: rc.Mode, ObsEvery: rc.ObsEvery, ObsAddrs: rc.ObsAddrs, Cold: rc.Cold, ColdTail: rc.ColdTail}
+	c := runCfg{Mode: rc.Mode, ObsEvery: rc.ObsEvery, ObsAddrs: rc.ObsAddrs, Cold: rc.Cold, ColdTail: rc.ColdTail, Iter: rc.Iter}
 	fmt.Printf("replaying on the real StateDB (mode %s): %s\n", modeName[c.Mode], progString(prog))
 	f, ok := run(prog, c, nil) // the verdict comes from an undisturbed execution
 	fmt.Println("trace (a second execution, with all getters read after every step):")
@@ -842,6 +938,7 @@ func main() {
 	}
 	r = report.New("C08", "model_checking")
 	initUniverse()
+	initHashes()
 	// The live heap is tiny and the allocation rate huge (one fresh database + StateDB per program):
 	// a larger growth ratio saves most of the collector's work.
 	gcp := 400
@@ -902,6 +999,9 @@ func main() {
 		for L := 1; L <= 4; L++ {
 			stageSlots(fmt.Sprintf("E4:slot histories L=%d", L), L, svAll)
 		}
+		for L := 1; L <= 5; L++ {
+			stageLayering(fmt.Sprintf("E6:snapshot layering L=%d", L), L, true)
+		}
 		stageE1("E1:|P|=0,|B|=0", core, core, 0, 0, fins, false, false)
 		stageE1("E1:|P|=0,|B|=1 full", full, full, 0, 1, fins, true, false)
 		stageE1("E1:|P|=1 core x 7 finishers,|B|=1 core (+snap)", core, core, 1, 1, fins, true, true)
@@ -912,6 +1012,7 @@ func main() {
 		stageE1("E1:|P|=1 core x 7 finishers,|B|=2 core (+snap)", core, core, 1, 2, fins, false, true)
 		stageE2("E2:straight L=3 (snapshot modes after Commit/IntermediateRoot)", straight, 3, commitModes)
 		stageMarkers("E5:destruct markers L=6", 6, svTrieSnapDiff)
+		stageLayering("E6:snapshot layering L=6", 6, false)
 		stageInc("E3:incarnations L=6", 6, svTrie)
 		stageMarkers("E5:destruct markers L=7", 7, svSnapDiffHot)
 		stageSlots("E4:slot histories L=7", 7, svTrie)
@@ -929,6 +1030,9 @@ func main() {
 		}
 		stageSlots("E4:slot histories L=6", 6, svTrieSnapDiff)
 		stageSlots("E4:slot histories L=7", 7, svTrie)
+		for L := 1; L <= 6; L++ {
+			stageLayering(fmt.Sprintf("E6:snapshot layering L=%d", L), L, true)
+		}
 		stageE1("E1:|P|=0,|B|=0", core, core, 0, 0, fins, false, false)
 		stageE1("E1:|P|=0,|B|=1 full nested", full, full, 0, 1, fins, true, false)
 		stageE1("E1:|P|=1 full x 7 finishers,|B|=1 full nested (+snap)", full, full, 1, 1, fins, true, true)
@@ -938,6 +1042,7 @@ func main() {
 		stageE1("E1:|P|=1 full x 7 finishers,|B|=2 full", full, full, 1, 2, fins, false, false)
 		stageInc("E3:incarnations L=6", 6, svTrieSnapDiff)
 		stageE2("E2:straight L=4 (snapshot modes after Commit/IntermediateRoot)", straight, 4, commitModes)
+		stageLayering("E6:snapshot layering L=7", 7, false)
 		stageMarkers("E5:destruct markers L=7", 7, svAll)
 		stageMarkers("E5:destruct markers L=8", 8, svTrieSnapDiff)
 		stageInc("E3:incarnations L=7", 7, svTrie)
@@ -976,6 +1081,7 @@ func main() {
 	r.Add("copy_checks", cntCopyChecks)
 	r.Add("cross_backing_checks_snapshot_vs_trie", cntCrossBacking)
 	r.Add("cold_executions", cntColdProgs)
+	r.Add("snapshot_iterator_checks", cntIterChecks)
 	r.Add("fresh_replay_checks", cntFreshReplay)
 	perKind := map[string]int64{}
 	for k := Kind(0); k < numKinds; k++ {
